@@ -18,7 +18,7 @@ RULE = (
     "file-system scan (no imports), the allow-list, the direct submodules of a fixed package list, near-misses of "
     "allow-listed names (prefixes, suffixes, dotted children, parents) and names of files placed under pyscript/modules and "
     "pyscript/apps; for every name every import statement form {import a, import a as x, from a import b, from a import *, "
-    "and the dotted variants} executed directly and through exec() of source text, with allow_all_imports off and on. "
+    "and the dotted variants} executed directly, through exec() of source text and inside a function body, with allow_all_imports off and on (thorough: plus the direct submodules of every package found on sys.path). "
     "Oracle: the documented allow-list predicate - not allow-listed, not a pyscript module, option off => "
     "ModuleNotFoundError and an unchanged symbol table; allow-listed / pyscript module => bound and usable; option on => "
     "the interpreter obtains exactly that module (sys.modules entry or one importlib.import_module call with exactly that "
@@ -35,6 +35,7 @@ ASSUMPTIONS = [
 MAXTASKS = 30
 
 EXCLUDED = ["open", "compile", "input", "breakpoint", "memoryview", "print"]
+TIER = ["quick"]
 
 
 def all_names():
@@ -51,6 +52,16 @@ def all_names():
                 spec_paths.append(d)
         for m in pkgutil.iter_modules(spec_paths):
             names.add(f"{pkg}.{m.name}")
+    if TIER[0] == "thorough":
+        # the direct submodules of EVERY package found on sys.path (directory scan only)
+        for p in sys.path:
+            if not os.path.isdir(p):
+                continue
+            for entry in sorted(os.listdir(p)):
+                d = os.path.join(p, entry)
+                if entry.isidentifier() and os.path.isfile(os.path.join(d, "__init__.py")):
+                    for m in pkgutil.iter_modules([d]):
+                        names.add(f"{entry}.{m.name}")
     for a in sorted(ALLOWED_IMPORTS):
         names.update({a + "x", a[:-1], "x" + a, a + ".sub", a.split(".")[0], a.upper()})
     names.update({"pmod", "ppkg", "ppkg.sib", "papp", "modules.pmod", "nosuchmodule_zz", "os.path", "builtins", "sys", "subprocess"})
@@ -163,10 +174,16 @@ def expected(name, form, allow):
 
 def check_name(res, env, name):
     for form, stmt in forms(name):
-        for via in ("direct", "exec"):
+        for via in ("direct", "exec", "func"):
+            if via == "func" and form == "from_star":
+                continue  # 'import *' is only allowed at module level
             src = stmt if via == "direct" else f"exec({stmt!r})"
+            if via == "func":
+                src = f"def f_imp():\n    {stmt}\n    return 1\nr_imp = f_imp()"
             for allow in (False, True):
                 exc, bound, requested = env.run(src, allow)
+                if via == "func":
+                    bound = {k: v for k, v in bound.items() if k not in ("f_imp", "r_imp")}
                 exp = expected(name, form, allow)
                 mod = name.rsplit(".", 1)[0] if form == "from_parent" else name
                 obs = (exc, tuple(sorted(bound)), tuple(requested))
@@ -187,7 +204,7 @@ def check_name(res, env, name):
                             fail = {"kind": "allowed-but-rejected", "observed": obs}
                     if allow and mod not in sys.modules and mod not in PYSCRIPT_MODULES and requested != [mod]:
                         fail = {"kind": "wrong-module-requested", "expected": [mod], "observed": obs}
-                    if exc is None and form in ("import", "import_as", "from_attr") and not bound:
+                    if exc is None and via != "func" and form in ("import", "import_as", "from_attr") and not bound:
                         fail = {"kind": "allowed-but-nothing-bound", "observed": obs}
                 if fail:
                     res.fail(f"{fail['kind']}|{form}|{via}|allow={allow}|{expected_class(name)}", case,
@@ -263,12 +280,13 @@ def check_builtins(res, env):
 
 
 def bounds(tier):
-    return {"names": len(all_names()), "forms": 5, "via": ["direct", "exec"], "options": [False, True], "builtins": len(dir(builtins))}
+    TIER[0] = tier
+    return {"names": len(all_names()), "forms": 5, "via": ["direct", "exec", "inside a function"], "options": [False, True], "builtins": len(dir(builtins))}
 
 
 def plan(tier, seed):
-    n = 16
-    return [("names", k, n) for k in range(n)] + [("builtins",)]
+    n = 16 if tier == "quick" else 64
+    return [("names", tier, k, n) for k in range(n)] + [("builtins",)]
 
 
 def run_shard(shard):
@@ -279,7 +297,8 @@ def run_shard(shard):
             check_builtins(res, env)
             check_stubs(res, env)
         else:
-            _, k, n = shard
+            _, tier, k, n = shard
+            TIER[0] = tier
             for i, name in enumerate(all_names()):
                 if i % n == k:
                     check_name(res, env, name)
